@@ -1,9 +1,11 @@
 package core
 
 import (
+	"context"
 	"encoding/json"
 	"fmt"
 	"testing"
+	"time"
 
 	"github.com/koron-go/z80"
 	"github.com/koron-go/z80/verifharness/eng"
@@ -24,6 +26,11 @@ type c07Case struct {
 	Second string `json:"second,omitempty"`
 	Gap    int    `json:"gap,omitempty"`
 	Arg2   int    `json:"arg2,omitempty"`
+	// Dumb: the CPU's memory is the bundled DumbMemory (a slice over the machine's array) instead of the machine itself
+	Dumb bool `json:"dumb,omitempty"`
+	// ByRun: after the request has been raised the host drives the CPU with Run (call after call, each ending at a HALT)
+	// instead of Step; only the end of the run is compared then
+	ByRun bool `json:"by_run,omitempty"`
 }
 
 const c07MaxSteps = 20000
@@ -133,11 +140,17 @@ func (r *c07Rig) inject(c *c07Case, ref *c07Ref) c07Outcome {
 	p.initCPU(&r.cpu, &r.m)
 	r.cpu.IM = im
 	cpu := &r.cpu
+	if c.Dumb {
+		cpu.Memory = z80.DumbMemory(r.m.m[:])
+	}
 	for i := 0; i < c.K; i++ {
 		cpu.Step()
 	}
 	parkedAtInjection := c.K >= ref.n
 	cpu.Interrupt = req
+	if c.ByRun {
+		return r.finishByRun(c, ref, parkedAtInjection)
+	}
 	maskable := c.Kind != "nmi"
 	if maskable && !cpu.IFF1 {
 		o.labels = append(o.labels, "raised-while-disabled")
@@ -280,6 +293,76 @@ func (r *c07Rig) inject(c *c07Case, ref *c07Ref) c07Outcome {
 	return o
 }
 
+// finishByRun: the request has just been raised; the host goes on with Run. Every call ends at a HALT (the final one,
+// possibly again after the handler has returned to it); the run is over when the program is parked on its final HALT
+// with nothing left that could be accepted.
+func (r *c07Rig) finishByRun(c *c07Case, ref *c07Ref, parkedAtInjection bool) c07Outcome {
+	var o c07Outcome
+	p, cpu := &c.Prog, &r.cpu
+	sp0 := cpu.SP
+	done := false
+	for call := 0; call < 6; call++ {
+		ctx, cancel := context.WithTimeout(context.Background(), 20*time.Second)
+		err := cpu.Run(ctx)
+		cancel()
+		if err != nil {
+			o.msg = fmt.Sprintf("driven by Run after the request: Run returned %v (PC=%04x)", err, cpu.PC)
+			return o
+		}
+		if !(cpu.PC >= p.L.Halt && cpu.PC <= p.L.Halt+3 && r.m.m[cpu.PC] == 0x76) {
+			o.msg = fmt.Sprintf("driven by Run after the request: Run stopped at PC=%04x, which is not the program's final HALT", cpu.PC)
+			return o
+		}
+		if cpu.Interrupt == nil || (c.Kind != "nmi" && !cpu.IFF1) {
+			done = true
+			break
+		}
+	}
+	if !done {
+		o.msg = "driven by Run after the request: the request is still pending and acceptable after six calls"
+		return o
+	}
+	o.accepted = cpu.Interrupt == nil
+	if o.accepted {
+		o.nAcc = 1
+	}
+	got, want := cpu.States, ref.st
+	got.IR.Lo, want.IR.Lo = got.IR.Lo&0x80, want.IR.Lo&0x80
+	if got.PC > p.L.Halt && got.PC <= p.L.Halt+2 && parkedAtInjection {
+		got.PC = p.L.Halt
+	}
+	if got != want {
+		g, w := stFromStates(got), stFromStates(want)
+		o.msg = "driven by Run after the request: final state differs from the uninterrupted run: " + fmtStateDiff(&g, &w)
+		return o
+	}
+	if int(r.m.m[p.L.Cnt]) != o.nAcc {
+		o.msg = fmt.Sprintf("driven by Run after the request: handler ran %d times for %d accepted requests", r.m.m[p.L.Cnt], o.nAcc)
+		return o
+	}
+	// memory outside the counter and a window below the stack pointer the program had when the request was raised
+	// (where exactly the acceptance happened is not observed here)
+	r.m.m[p.L.Cnt] = r.m0.m[p.L.Cnt]
+	for i := uint16(1); i <= 96; i++ {
+		r.m.m[sp0-i] = r.m0.m[sp0-i]
+	}
+	for i := uint16(0); i < 32; i++ {
+		r.m.m[sp0+i] = r.m0.m[sp0+i]
+	}
+	if r.m.m != r.m0.m {
+		for a := 0; a < 65536; a++ {
+			if r.m.m[a] != r.m0.m[a] {
+				o.msg = fmt.Sprintf("driven by Run after the request: memory differs from the uninterrupted run at %04x: %02x want %02x", a, r.m.m[a], r.m0.m[a])
+				return o
+			}
+		}
+	}
+	if len(r.m.outs) != len(ref.outs) {
+		o.msg = "driven by Run after the request: port output differs from the uninterrupted run"
+	}
+	return o
+}
+
 func stFromStates(s z80.States) (r stateView) {
 	var c z80.CPU
 	c.States = s
@@ -317,7 +400,7 @@ func TestC07(t *testing.T) {
 		"conditional jumps, final HALT; three layouts incl. code running through 0xFFFF->0x0000 and a stack wrapping below 0x0000) x every injection point k in 0..N+2 (enumerated per program) x " +
 		"{NMI, IM1, IM2 with drawn vector and I, IM0+RST p, IM0+CALL nn}, generated handlers (PUSH AF; ...; POP AF; EI; RETI / RETN); oracle = metamorphic: final registers, flags, IFF, HALT, " +
 		"memory outside the stack bytes below SP and port output equal the uninterrupted run, handler ran exactly once (or the request is still pending when never enabled), and the word pushed " +
-		"on acceptance is the PC of the first instruction not yet executed; non-trivial = request accepted while the program is running; distinct by hash(program, k, kind)"
+		"on acceptance is the PC of the first instruction not yet executed; six more injection points per kind on the bundled DumbMemory and / or with the host driving by Run after the request (end of the run compared); non-trivial = request accepted while the program is running; distinct by hash(program, k, kind)"
 	rig := &c07Rig{}
 	var focus *c07Case
 	rapid.Check(t, func(t *rapid.T) {
@@ -402,6 +485,40 @@ func TestC07(t *testing.T) {
 					col.Label("never-accepted")
 				}
 			}
+			// the same on the bundled DumbMemory, and with the host driving by Run after the request (not for mode 0:
+			// under the known finding the return address has to be put right Step by Step)
+			for j := 0; j < 6; j++ {
+				c.K = int(stats.Hash(ph, uint64(j), 0xD0, uint64(len(kind))) % uint64(ref.n+3))
+				c.Dumb = j%2 == 0
+				c.ByRun = j >= 2 && kind != "im0rst" && kind != "im0call"
+				if !c.Dumb && !c.ByRun {
+					continue
+				}
+				o := rig.inject(&c, &ref)
+				col.Eval(1)
+				for i := 0; i < o.repaired; i++ {
+					col.Known(sigIm0, c06Known[sigIm0])
+				}
+				if o.known {
+					col.Known(sigIm0, c06Known[sigIm0])
+					continue
+				}
+				if o.msg != "" {
+					cc := c
+					focus = &cc
+					violation(t, "C07", "transparent", c, "same outcome as the uninterrupted run", c.Kind+fmt.Sprintf(" at k=%d: ", c.K)+o.msg)
+				}
+				if c.Dumb {
+					col.Label("machine:DumbMemory")
+				}
+				if c.ByRun {
+					col.Label("driven-by-Run-after-the-request")
+					if c.K >= ref.n {
+						col.Label("driven-by-Run-after-the-request:parked")
+					}
+				}
+			}
+			c.Dumb, c.ByRun = false, false
 			// a second request later in the same run, on the CPU value that has already served the first
 			seconds := map[string][]string{"nmi": {"nmi", "im0rst", "im0call"}, "im0rst": {"nmi", "im0rst", "im0call"}, "im0call": {"nmi", "im0rst", "im0call"},
 				"im1": {"nmi", "im1"}, "im2": {"nmi", "im2"}}[kind]
